@@ -4,6 +4,7 @@
 use crate::cli::Scratch;
 use crate::coq::{self, Shards, Stats};
 use crate::ledger::*;
+use crate::price::{comm_of, from_iso, iso_date};
 use crate::prng::Rng;
 use crate::Opts;
 use rust_decimal::Decimal;
@@ -76,6 +77,628 @@ fn account_id(s: &str) -> usize {
     ACCOUNTS.iter().position(|a| *a == s).unwrap_or(999)
 }
 
+
+/// one command line on a ledger file
+#[derive(Clone, Debug)]
+enum Cmd {
+    Plain(&'static str),
+    /// balance -X T (--historical | --now D) [--start S] [--end E]
+    Bal { target: usize, now: Option<i32>, start: Option<i32>, end: Option<i32> },
+    /// primitive eval --date D -X T "(v1 C1 + v2 C2 ...)"
+    Eval { terms: Vec<(usize, i64)>, target: usize, date: i32 },
+}
+
+impl Cmd {
+    fn args(&self, path: &str) -> Vec<String> {
+        let s = |x: &str| x.to_string();
+        match self {
+            Cmd::Plain(c) => vec![s(c), s(path)],
+            Cmd::Bal { target, now, start, end } => {
+                let mut a = vec![s("balance"), s(path), s("-X"), s(COMMODITIES[*target]), s("--now"), iso_date(now.unwrap_or(0))];
+                if now.is_none() {
+                    a.push(s("--historical"));
+                }
+                if let Some(d) = start {
+                    a.push(s("--start"));
+                    a.push(iso_date(*d));
+                }
+                if let Some(d) = end {
+                    a.push(s("--end"));
+                    a.push(iso_date(*d));
+                }
+                a
+            }
+            Cmd::Eval { terms, target, date } => {
+                let e: Vec<String> = terms.iter().map(|(c, v)| format!("{} {}", v, COMMODITIES[*c])).collect();
+                vec![s("primitive"), s("eval"), s("--date"), iso_date(*date), s("-f"), s(path), s("-X"), s(COMMODITIES[*target]), e.join(" + ")]
+            }
+        }
+    }
+    fn label(&self) -> String {
+        match self {
+            Cmd::Plain(c) => c.to_string(),
+            Cmd::Bal { now: None, start, end, .. } => format!("balance-X-historical{}", if start.is_some() || end.is_some() { "-ranged" } else { "" }),
+            Cmd::Bal { start, end, .. } => format!("balance-X{}", if start.is_some() || end.is_some() { "-ranged" } else { "" }),
+            Cmd::Eval { .. } => "eval-X".to_string(),
+        }
+    }
+    fn query_term(&self) -> Option<String> {
+        let od = |d: &Option<i32>| coq::opt(d.map(|x| coq::z(x as i128)));
+        match self {
+            Cmd::Plain(_) => None,
+            Cmd::Bal { target, now, start, end } => Some(format!("(XQ {} {} {} {})", target, od(now), od(start), od(end))),
+            Cmd::Eval { terms, target, date } => Some(format!(
+                "(XE {} {} {})",
+                coq::list(terms.iter().map(|(c, v)| format!("({}, {})", c, dec_term(&Decimal::new(*v, 0))))),
+                target,
+                coq::z(*date as i128)
+            )),
+        }
+    }
+}
+
+/// N fresh processes: number of distinct (exit, stdout, stderr) triples and the first run
+fn run_n(bin: &str, args: &[String], n: usize) -> (usize, RunOut) {
+    let mut seen: HashSet<(i32, String, String)> = HashSet::new();
+    let mut first: Option<RunOut> = None;
+    for _ in 0..n {
+        let out = run_bin(bin, args);
+        seen.insert((out.code, out.stdout.clone(), out.stderr.clone()));
+        if first.is_none() {
+            first = Some(out);
+        }
+    }
+    (seen.len(), first.unwrap())
+}
+
+/// `--> path:line:col` of a rendered diagnostic
+fn arrow_line(plain: &str) -> Option<usize> {
+    for l in plain.lines() {
+        if let Some(rest) = l.trim_start().strip_prefix("--> ") {
+            let parts: Vec<&str> = rest.rsplitn(3, ':').collect();
+            if parts.len() == 3 {
+                return parts[1].parse().ok();
+            }
+        }
+    }
+    None
+}
+
+/// what a failed run on a generated ledger said: a missing rate, or a diagnostic placed in an entry
+fn fail_term(first: &RunOut, rd: &Rendered, multi: &mut bool) -> String {
+    let plain = strip_ansi(&first.stderr);
+    if let Some(i) = plain.find("commodity rate ") {
+        // commodity rate V C into T at YYYY-MM-DD not found
+        let rest = &plain[i + "commodity rate ".len()..];
+        let line = rest.lines().next().unwrap_or("");
+        let w: Vec<&str> = line.split(' ').collect();
+        if w.len() == 8 && w[2] == "into" && w[4] == "at" && w[6] == "not" {
+            if let (Ok(v), Some(c), Some(t), Some(d)) = (w[0].parse::<Decimal>(), comm_of(w[1]), comm_of(w[3]), from_iso(w[5])) {
+                return format!("(OConvErr {} {} {} {})", c, dec_term(&v), t, coq::z(d as i128));
+            }
+        }
+        return "OOpaque".to_string();
+    }
+    if let Some(line) = arrow_line(&plain) {
+        let k = rd.entry_line.iter().rposition(|l| *l <= line).unwrap_or(0);
+        let (kind, res) = if let Some(l) = plain.lines().find(|l| l.contains("unbalanced postings: ")) {
+            let sq = parse_seq(l.split("unbalanced postings: ").nth(1).unwrap_or(""));
+            if sq.len() >= 2 {
+                *multi = true;
+            }
+            (1, format!("(Some {})", seq_term(&sq)))
+        } else if plain.contains("balance assertion off by") {
+            (2, "None".to_string())
+        } else {
+            (3, "None".to_string())
+        };
+        return format!("(OBookErr {}%nat {} {})", k, kind, res);
+    }
+    "OOpaque".to_string()
+}
+
+fn commodities_of(es: &[Entry]) -> Vec<usize> {
+    fn ve(v: &VE, out: &mut std::collections::BTreeSet<usize>) {
+        match v {
+            VE::Amt(l) => {
+                if let Some(c) = l.comm {
+                    out.insert(c);
+                }
+            }
+            VE::Paren(e) => ex(e, out),
+        }
+    }
+    fn ex(e: &Ex, out: &mut std::collections::BTreeSet<usize>) {
+        match e {
+            Ex::Neg(a) => ex(a, out),
+            Ex::Bin(_, a, b) => {
+                ex(a, out);
+                ex(b, out);
+            }
+            Ex::Val(v) => ve(v, out),
+        }
+    }
+    let mut out = std::collections::BTreeSet::new();
+    for e in es {
+        match e {
+            Entry::Format(c, _) => {
+                out.insert(*c);
+            }
+            Entry::Comment => {}
+            Entry::Txn(t) => {
+                for p in &t.posts {
+                    for v in [&p.amount, &p.balance].into_iter().flatten() {
+                        ve(v, &mut out);
+                    }
+                    for x in [&p.cost, &p.lot].into_iter().flatten() {
+                        match x {
+                            Exch::Total(v) | Exch::Rate(v) => ve(v, &mut out),
+                        }
+                    }
+                }
+            }
+        }
+    }
+    out.into_iter().collect()
+}
+
+fn dates_of(es: &[Entry]) -> Vec<i32> {
+    let mut d: Vec<i32> = es.iter().filter_map(|e| if let Entry::Txn(t) = e { Some(t.date) } else { None }).collect();
+    d.sort();
+    d.dedup();
+    d
+}
+
+// ---- ledgers with several independent failures ----
+const REAL_ACCOUNTS: [usize; 5] = [0, 1, 3, 4, 5]; // every account but Equity:Opening
+const EQUITY_ACCT: usize = 2;
+
+fn lit(m: i64, scale: u32, c: usize) -> VE {
+    VE::Amt(Lit { m, scale, comm: Some(c), grouped: false })
+}
+fn post(account: usize, amount: Option<VE>) -> Posting {
+    Posting { account, amount, cost: None, lot: None, balance: None }
+}
+/// holdings booked against an omitted Equity:Opening posting
+fn hold(date: i32, ps: &[(usize, i64, u32, usize)]) -> Entry {
+    let mut posts: Vec<Posting> = ps.iter().map(|(a, m, s, c)| post(*a, Some(lit(*m, *s, *c)))).collect();
+    posts.push(post(EQUITY_ACCT, None));
+    Entry::Txn(Txn { date, posts })
+}
+/// a rate x -> y on `date`: `Equity:Opening  0 X @ r Y` (the form the C10 cases use)
+fn quote(date: i32, x: usize, m: i64, s: u32, y: usize) -> Entry {
+    let mut p = post(EQUITY_ACCT, Some(lit(0, 0, x)));
+    p.cost = Some(Exch::Rate(lit(m, s, y)));
+    Entry::Txn(Txn { date, posts: vec![p, post(EQUITY_ACCT, None)] })
+}
+fn nonzero(r: &mut Rng) -> (i64, u32) {
+    let scale = *r.pick(&[0u32, 0, 2, 3]);
+    let m = r.range(1, 5000) * if r.chance(1, 3) { -1 } else { 1 };
+    (m, scale)
+}
+
+#[derive(Clone, Copy, Debug)]
+enum Failing {
+    Assertion,
+    Unbalanced2,
+    Unbalanced3,
+    EvalError,
+    Undeducible,
+    ZeroRate,
+}
+
+/// one transaction that book-keeping rejects, built from accounts / commodities chosen by the caller
+fn failing_txn(r: &mut Rng, f: Failing, date: i32, k: usize) -> Entry {
+    let a = REAL_ACCOUNTS[k % 5];
+    let b = REAL_ACCOUNTS[(k + 1 + r.below(4) as usize) % 5];
+    let c1 = (k + r.below(5) as usize) % 5;
+    let c2 = (c1 + 1 + r.below(2) as usize) % 5;
+    let c3 = (c2 + 1 + r.below(2) as usize) % 5;
+    let v = r.range(1, 900);
+    let posts = match f {
+        Failing::Assertion => {
+            // the asserted total of (account, commodity) is off by a whole amount whatever was held before
+            let mut p = post(a, Some(lit(v, 0, c1)));
+            p.balance = Some(lit(1_000_000 + v + r.range(1, 50), 0, c1));
+            vec![p, post(EQUITY_ACCT, None)]
+        }
+        Failing::Unbalanced2 => vec![post(a, Some(lit(v + 10, 0, c1))), post(b, Some(lit(-v, 0, c1)))],
+        Failing::Unbalanced3 => {
+            let c3 = (0..5).map(|i| (c3 + i) % 5).find(|c| *c != c1 && *c != c2).unwrap();
+            vec![post(a, Some(lit(v, 0, c1))), post(b, Some(lit(v + 3, 0, c2))), post(EQUITY_ACCT, Some(lit(-v - 7, 0, c3)))]
+        }
+        Failing::EvalError => {
+            let e = Ex::Bin(Op::Mul, Box::new(Ex::Val(Box::new(lit(v, 0, c1)))), Box::new(Ex::Val(Box::new(lit(2, 0, c2)))));
+            vec![post(a, Some(VE::Paren(Box::new(e)))), post(EQUITY_ACCT, None)]
+        }
+        Failing::Undeducible => vec![post(a, Some(lit(v, 0, c1))), post(b, None), post(EQUITY_ACCT, None)],
+        Failing::ZeroRate => {
+            let mut p = post(a, Some(lit(v, 0, c1)));
+            p.cost = Some(Exch::Rate(lit(0, 0, c2)));
+            vec![p, post(EQUITY_ACCT, None)]
+        }
+    };
+    Entry::Txn(Txn { date, posts })
+}
+
+/// a ledger with several independent failures and the commands to run on it
+fn gen_multi_failure(r: &mut Rng, k: usize) -> (Vec<Entry>, Vec<Cmd>, &'static str) {
+    let mut comms: Vec<usize> = (0..COMMODITIES.len()).collect();
+    r.shuffle(&mut comms);
+    let target = comms[0];
+    let others: Vec<usize> = comms[1..].to_vec();
+    // distinct dates, NOT in file order: "the first in the file" and "the earliest" differ
+    let mut dates: Vec<i32> = (0..12).map(|i| 3 + 7 * i + r.below(6) as i32).collect();
+    r.shuffle(&mut dates);
+    let mut es: Vec<Entry> = Vec::new();
+    let valid = |r: &mut Rng, date: i32| {
+        let (m, s) = nonzero(r);
+        hold(date, &[(*r.pick(&REAL_ACCOUNTS), m, s, target)])
+    };
+    match k % 4 {
+        0 => {
+            // several amounts without a rate into the target: different dates, accounts, commodities
+            let n = 3 + r.below(3) as usize;
+            for i in 0..n {
+                let c = others[i % others.len()];
+                let (m, s) = nonzero(r);
+                let mut ps = vec![(*r.pick(&REAL_ACCOUNTS), m, s, c)];
+                if r.chance(1, 2) {
+                    let (m2, s2) = nonzero(r);
+                    ps.push((*r.pick(&REAL_ACCOUNTS), m2, s2, others[(i + 1 + r.below(3) as usize) % others.len()]));
+                }
+                if r.chance(1, 3) {
+                    let (m3, s3) = nonzero(r);
+                    ps.push((*r.pick(&REAL_ACCOUNTS), m3, s3, target));
+                }
+                es.push(hold(dates[i], &ps));
+                if r.chance(1, 3) {
+                    es.push(valid(r, dates[6 + i % 5]));
+                }
+            }
+            // one of the commodities may get a rate, somewhere in the file, at some date
+            let dq = dates[11];
+            if r.chance(2, 3) {
+                let at = r.below(es.len() as u64 + 1) as usize;
+                es.insert(at, quote(dq, others[r.below(2) as usize], r.range(2, 300), *r.pick(&[0u32, 2]), target));
+            }
+            let mut sd = dates[..n].to_vec();
+            sd.sort();
+            let lo = sd[r.below(n as u64) as usize];
+            let hi = sd[r.below(n as u64) as usize].max(lo) + r.below(3) as i32;
+            let terms: Vec<(usize, i64)> = others.iter().take(2 + r.below(3) as usize).map(|c| (*c, r.range(1, 90))).collect();
+            let cmds = vec![
+                Cmd::Plain("balance"),
+                Cmd::Bal { target, now: None, start: None, end: None },
+                Cmd::Bal { target, now: None, start: Some(lo), end: Some(hi + 1) },
+                Cmd::Bal { target, now: None, start: if r.chance(1, 2) { Some(lo) } else { None }, end: if r.chance(1, 2) { Some(hi) } else { None } },
+                Cmd::Bal { target, now: Some(120), start: None, end: None },
+                Cmd::Bal { target, now: Some(dq - 1), start: Some(lo), end: None },
+                Cmd::Eval { terms: terms.clone(), target, date: 120 },
+                Cmd::Eval { terms, target, date: dq - 1 },
+                Cmd::Eval { terms: vec![(target, 3), (others[r.below(2) as usize], 2)], target, date: 120 },
+            ];
+            (es, cmds, "several-missing-rates")
+        }
+        1 => {
+            let n = 2 + r.below(3) as usize;
+            for i in 0..n {
+                if r.chance(1, 2) {
+                    es.push(valid(r, dates[6 + i]));
+                }
+                es.push(failing_txn(r, Failing::Assertion, dates[i], k / 4 + i));
+            }
+            let cmds = vec![Cmd::Plain("balance"), Cmd::Plain("register"), Cmd::Bal { target, now: None, start: None, end: None }];
+            (es, cmds, "several-failing-assertions")
+        }
+        2 => {
+            let n = 2 + r.below(3) as usize;
+            for i in 0..n {
+                if r.chance(1, 2) {
+                    es.push(valid(r, dates[6 + i]));
+                }
+                let f = if r.chance(2, 3) { Failing::Unbalanced3 } else { Failing::Unbalanced2 };
+                es.push(failing_txn(r, f, dates[i], k / 4 + i));
+            }
+            let cmds = vec![Cmd::Plain("balance"), Cmd::Plain("register"), Cmd::Bal { target, now: Some(120), start: None, end: None }];
+            (es, cmds, "several-unbalanced")
+        }
+        _ => {
+            let mut kinds = vec![Failing::Assertion, Failing::Unbalanced3, Failing::EvalError, Failing::Undeducible, Failing::ZeroRate, Failing::Unbalanced2];
+            r.shuffle(&mut kinds);
+            kinds.truncate(3 + r.below(3) as usize);
+            for (i, f) in kinds.iter().enumerate() {
+                if r.chance(1, 2) {
+                    es.push(valid(r, dates[6 + i]));
+                }
+                if r.chance(1, 2) {
+                    // an amount without a rate, in front of the entries that fail
+                    let (m, s) = nonzero(r);
+                    es.push(hold(dates[11 - i % 2], &[(*r.pick(&REAL_ACCOUNTS), m, s, others[i % others.len()])]));
+                }
+                es.push(failing_txn(r, *f, dates[i], k / 4 + i));
+            }
+            let cmds = vec![
+                Cmd::Plain("balance"),
+                Cmd::Plain("register"),
+                Cmd::Plain("accounts"),
+                Cmd::Plain("format"),
+                Cmd::Bal { target, now: None, start: None, end: None },
+                Cmd::Eval { terms: vec![(others[0], 1), (others[1], 2)], target, date: 60 },
+            ];
+            (es, cmds, "several-mixed-failures")
+        }
+    }
+}
+
+// ---- CSV imports: headers with near-duplicates of the configured labels, several failures ----
+#[derive(Clone, Debug)]
+enum Pos {
+    Label(String),
+    BadTemplate(String),
+}
+
+struct ImportCase {
+    yml: String,
+    csv: String,
+    header: Vec<String>,
+    /// (FieldKey code as in Run/ImpCase.v FK, position)
+    fields: Vec<(usize, Pos)>,
+    tag: &'static str,
+}
+
+/// (FieldKey code, yaml key, canonical label)
+const FAMILIES: [(usize, &str, &str); 5] = [(0, "date", "Date"), (1, "payee", "Description"), (3, "note", "Memo"), (4, "amount", "Amount"), (2, "category", "Reference")];
+
+fn label_variants(l: &str) -> Vec<String> {
+    let mut v = vec![l.to_uppercase(), l.to_lowercase(), format!(" {}", l), format!("{} ", l), format!(" {} ", l), format!("  {}", l.to_lowercase()), format!("{} ", l.to_uppercase())];
+    v.retain(|x| x != l);
+    v.dedup();
+    v
+}
+
+fn cell(fam: usize, row: usize, col: usize) -> String {
+    match fam {
+        0 => format!("2024-{:02}-{:02}", row + 1, 10 + col),
+        1 => format!("Shop{}c{}", row, col),
+        3 => format!("N{}c{}", row, col),
+        4 => format!("-{}", 100 * (row + 1) + col),
+        2 => "cat".to_string(),
+        _ => "x".to_string(),
+    }
+}
+
+fn gen_import_case(r: &mut Rng, k: usize) -> ImportCase {
+    // columns of the statement: (label, family)
+    let mut cols: Vec<(String, usize)> = Vec::new();
+    let mut fields: Vec<(usize, Pos)> = Vec::new();
+    // which families are perturbed, and how
+    let mode = k % 8;
+    let n_pert = match mode {
+        6 => 2 + r.below(2) as usize, // several labels missing at once
+        _ => 1 + r.below(2) as usize,
+    };
+    let mut order: Vec<usize> = (0..FAMILIES.len()).collect();
+    r.shuffle(&mut order);
+    let perturbed: Vec<usize> = order[..n_pert].to_vec();
+    let mut tag = "import-near-duplicate-header";
+    // templates that do not parse: two or three of payee / note / category
+    let mut bad_templates: Vec<usize> = Vec::new();
+    if mode == 7 {
+        tag = "import-several-invalid-templates";
+        let mut cand = vec![1usize, 2, 3];
+        r.shuffle(&mut cand);
+        cand.truncate(2 + r.below(2) as usize);
+        bad_templates = cand;
+    }
+    for (fi, (key, _, canon)) in FAMILIES.iter().enumerate() {
+        if *key == 2 && !perturbed.contains(&fi) && !bad_templates.contains(key) && r.chance(1, 2) {
+            continue; // category is optional
+        }
+        if bad_templates.contains(key) {
+            let t = match r.below(3) {
+                0 => format!("{{bad_{}}} x", key),
+                1 => format!("{{nokey{}", key),
+                _ => format!("a {{{}x}} b", 90 + key),
+            };
+            fields.push((*key, Pos::BadTemplate(t)));
+            continue;
+        }
+        let vars = label_variants(canon);
+        if !perturbed.contains(&fi) {
+            cols.push((canon.to_string(), *key));
+            fields.push((*key, Pos::Label(canon.to_string())));
+            continue;
+        }
+        let scenario = match mode {
+            6 => *r.pick(&[1usize, 2, 4]),
+            7 => *r.pick(&[0usize, 3, 0, 3, 1]),
+            m => m,
+        };
+        let mut pick_vars = |r: &mut Rng, n: usize, not: &str| -> Vec<String> {
+            let mut v: Vec<String> = vars.iter().filter(|x| x.as_str() != not).cloned().collect();
+            r.shuffle(&mut v);
+            v.truncate(n);
+            v
+        };
+        let mut cfg = canon.to_string();
+        match scenario {
+            0 => {
+                // the exact label and look-alikes
+                cols.push((cfg.clone(), *key));
+                let n_v = 1 + r.below(3) as usize;
+                for v in pick_vars(r, n_v, "") {
+                    cols.push((v, *key));
+                }
+            }
+            1 => {
+                // one look-alike only: not found
+                let n_v = 1;
+                for v in pick_vars(r, n_v, "") {
+                    cols.push((v, *key));
+                }
+            }
+            2 => {
+                // several look-alikes, no exact label: not found
+                let n_v = 2 + r.below(2) as usize;
+                for v in pick_vars(r, n_v, "") {
+                    cols.push((v, *key));
+                }
+            }
+            3 => {
+                // the exact label two or three times (the last column wins), maybe look-alikes
+                for _ in 0..2 + r.below(2) {
+                    cols.push((cfg.clone(), *key));
+                }
+                let n_v = r.below(3) as usize;
+                for v in pick_vars(r, n_v, "") {
+                    cols.push((v, *key));
+                }
+            }
+            4 => {
+                // the config spells the label in a third way: the canonical one and others are there
+                cfg = vars[r.below(vars.len() as u64) as usize].clone();
+                cols.push((canon.to_string(), *key));
+                let n_v = 1 + r.below(2) as usize;
+                for v in pick_vars(r, n_v, &cfg) {
+                    cols.push((v, *key));
+                }
+            }
+            _ => {
+                // ... and the config's own spelling is there too
+                cfg = vars[r.below(vars.len() as u64) as usize].clone();
+                cols.push((canon.to_string(), *key));
+                cols.push((cfg.clone(), *key));
+                let n_v = r.below(3) as usize;
+                for v in pick_vars(r, n_v, &cfg) {
+                    cols.push((v, *key));
+                }
+            }
+        }
+        fields.push((*key, Pos::Label(cfg)));
+    }
+    for _ in 0..r.below(3) {
+        cols.push((r.pick(&["Extra", "Saldo", "amount due", ""]).to_string(), 99));
+    }
+    r.shuffle(&mut cols);
+    if mode == 6 {
+        tag = "import-several-missing-labels";
+    }
+    let quote_all = r.chance(1, 3);
+    let q = |x: &str| if quote_all || x.contains(',') { format!("\"{}\"", x) } else { x.to_string() };
+    let mut csv = cols.iter().map(|(l, _)| q(l)).collect::<Vec<_>>().join(",");
+    csv.push('\n');
+    for row in 0..2 {
+        csv.push_str(&cols.iter().enumerate().map(|(j, (_, fam))| q(&cell(*fam, row, j))).collect::<Vec<_>>().join(","));
+        csv.push('\n');
+    }
+    let mut yml = String::from("path: stmt\nencoding: UTF-8\naccount: Assets:Bank\naccount_type: asset\ncommodity: CHF\nformat:\n  date: \"%Y-%m-%d\"\n  fields:\n");
+    let mut fl = fields.clone();
+    r.shuffle(&mut fl);
+    for (key, pos) in &fl {
+        let name = FAMILIES.iter().find(|f| f.0 == *key).unwrap().1;
+        match pos {
+            Pos::Label(l) => yml.push_str(&format!("    {}: {}\n", name, crate::impgen::yq(l))),
+            Pos::BadTemplate(t) => yml.push_str(&format!("    {}:\n      template: {}\n", name, crate::impgen::yq(t))),
+        }
+    }
+    ImportCase { yml, csv, header: cols.into_iter().map(|c| c.0).collect(), fields, tag }
+}
+
+/// run one import N times; -> (Coq term of the observation, replay json, status)
+fn observe_import(bin: &str, scratch: &Scratch, dir: &str, yml: &str, csv: &str, fields: &[(usize, Pos)], n: usize) -> (String, serde_json::Value, u8) {
+    let cfg = scratch.write(&format!("{}/config.yml", dir), yml);
+    let src = scratch.write(&format!("{}/stmt.csv", dir), csv);
+    let args = vec!["import".to_string(), "--config".to_string(), cfg.to_string_lossy().to_string(), src.to_string_lossy().to_string()];
+    let (distinct, first) = run_n(bin, &args, n);
+    let err = strip_ansi(&first.stderr);
+    let mut picks: Vec<(usize, usize)> = Vec::new();
+    let mut bad: Option<usize> = None;
+    let status = if first.code == 0 {
+        // the first transaction is the first row: which columns did its values come from?
+        let mut lines = first.stdout.lines();
+        if let Some(h) = lines.next() {
+            let mut w = h.splitn(2, ' ');
+            let date = w.next().unwrap_or("");
+            if let Some(day) = date.rsplit('/').next().and_then(|d| d.parse::<usize>().ok()) {
+                if day >= 10 {
+                    picks.push((0, day - 10));
+                }
+            }
+            let rest = w.next().unwrap_or("").trim_start_matches(|c| c == '*' || c == '!' || c == ' ');
+            if let Some(j) = rest.strip_prefix("Shop0c").and_then(|x| x.parse::<usize>().ok()) {
+                picks.push((1, j));
+            }
+        }
+        for l in lines {
+            let t = l.trim();
+            if t.is_empty() {
+                break;
+            }
+            if let Some(j) = t.strip_prefix("; N0c").and_then(|x| x.parse::<usize>().ok()) {
+                picks.push((3, j));
+            }
+            if t.contains("Assets:Bank") {
+                if let Some(v) = t.split_whitespace().rev().nth(1).and_then(|x| x.parse::<i64>().ok()) {
+                    picks.push((4, (v.unsigned_abs() % 100) as usize));
+                }
+            }
+        }
+        0
+    } else if err.contains("specified labels not found") {
+        1
+    } else if let Some((k, _)) = fields.iter().find(|(_, p)| matches!(p, Pos::BadTemplate(t) if err.contains(t.as_str()))) {
+        bad = Some(*k);
+        3
+    } else {
+        2
+    };
+    let term = format!(
+        "(IO {} {} {} {})",
+        distinct,
+        status,
+        coq::list(picks.iter().map(|(k, c)| format!("({}, {}%nat)", k, c))),
+        coq::opt(bad.map(|k| k.to_string()))
+    );
+    let rep = json!({"property": "C13", "import_config": yml, "statement": csv, "distinct_outputs": distinct, "exit": first.code,
+                     "stdout": first.stdout.chars().take(500).collect::<String>(), "stderr": err.chars().take(500).collect::<String>(),
+                     "reproduce": "okane import --config config.yml stmt.csv, repeated in fresh processes"});
+    (term, rep, status)
+}
+
+/// corpus / replay files that hold an import (`import_config` + `statement`)
+fn corpus_imports(dir: &std::path::Path, extra: &[String]) -> Vec<(String, String)> {
+    let mut files: Vec<std::path::PathBuf> = Vec::new();
+    if let Some(i) = extra.iter().position(|a| a == "--replay") {
+        if let Some(p) = extra.get(i + 1) {
+            files.push(std::path::PathBuf::from(p));
+        }
+    } else if let Ok(rd) = std::fs::read_dir(dir) {
+        files = rd.filter_map(|e| e.ok()).map(|e| e.path()).collect();
+        files.sort();
+    }
+    let mut out = Vec::new();
+    for p in files {
+        if let Ok(text) = std::fs::read_to_string(&p) {
+            if let Ok(v) = serde_json::from_str::<serde_json::Value>(&text) {
+                if let (Some(c), Some(s)) = (v["import_config"].as_str(), v["statement"].as_str()) {
+                    if !s.starts_with("cli/tests/") {
+                        out.push((c.to_string(), s.to_string()));
+                    }
+                }
+            }
+        }
+    }
+    out
+}
+
+fn fields_term(fields: &[(usize, Pos)]) -> String {
+    coq::list(fields.iter().map(|(k, p)| match p {
+        Pos::Label(l) => format!("({}, LBL {})", k, crate::impgen::s_term(l)),
+        Pos::BadTemplate(_) => format!("({}, BADT)", k),
+    }))
+}
+
 /// split "Account name amount-text" where the account has no spaces in our generator
 fn split_first_space(l: &str) -> (&str, &str) {
     match l.find(' ') {
@@ -120,13 +743,26 @@ pub fn run(o: &Opts) {
     let mut st = Stats::new();
     let mut sh = Shards::new(&o.out, o.shards, &header("Classify_C13"));
     let n_runs = if o.thorough { 20 } else { 5 };
-    st.rule = format!("generated ledgers biased to multi-commodity accounts, multi-commodity residuals and expression amounts; for each, `okane balance|register|accounts|format` (+ import of the repository's statement samples) run in {} fresh processes (fresh hash keys each); a case is one ledger with all its commands; non-trivial = some printed amount or error carried >= 2 commodities; distinct by ledger text", n_runs);
+    st.rule = format!("generated ledgers biased to multi-commodity accounts, multi-commodity residuals and expression amounts; for each, `okane balance|register|accounts|format` and `balance -X T` (historical and up-to-date, with and without --start/--end, T a commodity of the ledger) run in {} fresh processes (fresh hash keys each); ledgers with SEVERAL independent failures (gen:several-*: amounts without a rate on different dates / accounts / commodities with dates out of file order, failing assertions, unbalanced transactions, a mix with ill-typed expressions, two unconstrained postings and zero rates, several syntax errors) under every command that can fail incl. `primitive eval -X`; what a failing run names (the entry of the `-->` line and the residual, or the amount, target and date of the missing rate) is compared with the model's first failure (book-keeping in file order; conversion in file order / account and commodity order: Model/CanonState.v balance_query_keyed); CSV imports whose header holds near-duplicates of the configured labels (case, blanks, repeated labels), several missing labels, several templates that do not parse, several bad rows: same outcome in every process and the outcome of FieldMap::try_new as modelled (Model/ImpCsv.v fieldmap_new: not found / which column); plus import of the repository's samples, generated rewrite rules, names differing in case, tied conversion chains; a case is one ledger with all its commands, or one import; non-trivial = some printed amount or error carried >= 2 commodities, or the case belongs to a several-failures / import stream; distinct by ledger text or (config, statement)", n_runs);
     st.assumptions.push("the clock is an input: no command that reads today's date is run without --now".into());
     let scratch = Scratch::new("c13");
     let (corpus, replay) = corpus_entries(&o.corpus, &o.extra);
     let mut r = Rng::new(o.seed, 113);
     let n = if replay { 0 } else if o.thorough { 600 } else { 110 };
-    let mut ledgers: Vec<(Vec<Entry>, &str)> = corpus.into_iter().map(|e| (e, "corpus")).collect();
+    let plain4 = || vec![Cmd::Plain("balance"), Cmd::Plain("register"), Cmd::Plain("accounts"), Cmd::Plain("format")];
+    // corpus and replay ledgers: the plain commands and, for every commodity of the ledger, both conversions
+    let mut ledgers: Vec<(Vec<Entry>, &str, Vec<Cmd>, usize)> = corpus
+        .into_iter()
+        .map(|e| {
+            let mut cmds = plain4();
+            let last = dates_of(&e).last().copied().unwrap_or(0);
+            for c in commodities_of(&e) {
+                cmds.push(Cmd::Bal { target: c, now: None, start: None, end: None });
+                cmds.push(Cmd::Bal { target: c, now: Some(last + 1), start: None, end: None });
+            }
+            (e, "corpus", cmds, n_runs.max(8))
+        })
+        .collect();
     for k in 0..n {
         let mut b = Bias::default_bias();
         b.max_txns = 6;
@@ -135,32 +771,53 @@ pub fn run(o: &Opts) {
         b.wrong_assert_pct = 0;
         b.unbalanced_pct = if k % 3 == 0 { 70 } else { 5 };
         b.omit_pct = 45;
-        ledgers.push((gen_ledger(&mut r, &b), "random"));
+        let es = gen_ledger(&mut r, &b);
+        // converted reports of the same ledger: a commodity of the ledger as target, at the
+        // transaction dates (historical) and as of a date among them (up-to-date), now and then
+        // over a date range; most have several amounts without a rate
+        let mut cmds = plain4();
+        let cs = commodities_of(&es);
+        let ds = dates_of(&es);
+        if !cs.is_empty() && !ds.is_empty() {
+            let range = |r: &mut Rng| -> (Option<i32>, Option<i32>) {
+                if r.chance(2, 3) {
+                    (None, None)
+                } else {
+                    let a = *r.pick(&ds);
+                    let b = *r.pick(&ds);
+                    (if r.chance(2, 3) { Some(a.min(b)) } else { None }, if r.chance(2, 3) { Some(a.max(b) + r.below(2) as i32) } else { None })
+                }
+            };
+            let (s1, e1) = range(&mut r);
+            cmds.push(Cmd::Bal { target: *r.pick(&cs), now: None, start: s1, end: e1 });
+            let (s2, e2) = range(&mut r);
+            cmds.push(Cmd::Bal { target: *r.pick(&cs), now: Some(*r.pick(&ds) + r.below(3) as i32 - 1), start: s2, end: e2 });
+        }
+        ledgers.push((es, "random", cmds, n_runs));
     }
-    for (idx, (es, tag)) in ledgers.iter().enumerate() {
+    // several independent failures in one ledger, for every command that can fail
+    let n_multi = if replay { 0 } else if o.thorough { 160 } else { 32 };
+    let mut rm = Rng::new(o.seed, 1130);
+    for k in 0..n_multi {
+        let (es, cmds, tag) = gen_multi_failure(&mut rm, k);
+        ledgers.push((es, tag, cmds, n_runs.max(8)));
+    }
+    for (idx, (es, tag, cmds, runs)) in ledgers.iter().enumerate() {
         let rd = render(es);
         let path = scratch.write(&format!("l{}.ledger", idx), &rd.text);
         let p = path.to_string_lossy().to_string();
         let mut runs_terms = Vec::new();
         let mut multi = false;
         let mut rep_runs = Vec::new();
-        for cmd in ["balance", "register", "accounts", "format"] {
-            let args = vec![cmd.to_string(), p.clone()];
-            let mut seen: HashSet<(i32, String, String)> = HashSet::new();
-            let mut first: Option<RunOut> = None;
-            for _ in 0..n_runs {
-                let out = run_bin(&bin, &args);
-                seen.insert((out.code, out.stdout.clone(), out.stderr.clone()));
-                if first.is_none() {
-                    first = Some(out);
-                }
-            }
-            let first = first.unwrap();
-            st.count(&format!("cmd:{}:{}", cmd, if first.code == 0 { "ok" } else { "fail" }));
-            if seen.len() > 1 {
+        for cmd in cmds {
+            let args = cmd.args(&p);
+            let (distinct, first) = run_n(&bin, &args, *runs);
+            let label = cmd.label();
+            st.count(&format!("cmd:{}:{}", label, if first.code == 0 { "ok" } else { "fail" }));
+            if distinct > 1 {
                 st.count("nondeterministic");
             }
-            let out_term = if first.code == 0 && cmd == "balance" {
+            let out_term = if first.code == 0 && label == "balance" {
                 let lines: Vec<String> = first
                     .stdout
                     .lines()
@@ -174,7 +831,7 @@ pub fn run(o: &Opts) {
                     })
                     .collect();
                 format!("(OBalance {})", coq::list(lines))
-            } else if first.code == 0 && cmd == "register" {
+            } else if first.code == 0 && label == "register" {
                 let lines: Vec<String> = first
                     .stdout
                     .lines()
@@ -190,31 +847,42 @@ pub fn run(o: &Opts) {
                     })
                     .collect();
                 format!("(ORegister {})", coq::list(lines))
-            } else if first.code != 0 && cmd == "balance" && first.stderr.contains("unbalanced postings: ") {
-                let plain = strip_ansi(&first.stderr);
-                let line = plain.lines().find(|l| l.contains("unbalanced postings: ")).unwrap_or("");
-                let txt = line.split("unbalanced postings: ").nth(1).unwrap_or("");
-                let s = parse_seq(txt);
-                if s.len() >= 2 {
-                    multi = true;
-                }
-                format!("(OUnbalanced {})", seq_term(&s))
+            } else if first.code == 0 && cmd.query_term().is_some() {
+                "OConvOk".to_string()
+            } else if first.code != 0 && !matches!(cmd, Cmd::Plain("accounts") | Cmd::Plain("format")) {
+                let t = fail_term(&first, &rd, &mut multi);
+                st.count(&format!("fail-obs:{}", t.trim_start_matches('(').split(' ').next().unwrap_or("")));
+                t
             } else {
                 "OOpaque".to_string()
             };
-            runs_terms.push(format!("(R {} {} {})", seen.len(), coq::bool_(first.code == 0), out_term));
-            rep_runs.push(json!({"cmd": cmd, "distinct_outputs": seen.len(), "exit": first.code,
+            runs_terms.push(match cmd.query_term() {
+                Some(q) => format!("(RX {} {} {} {})", distinct, coq::bool_(first.code == 0), q, out_term),
+                None => format!("(R {} {} {})", distinct, coq::bool_(first.code == 0), out_term),
+            });
+            rep_runs.push(json!({"args": args[..].iter().map(|a| if *a == p { "LEDGER".to_string() } else { a.clone() }).collect::<Vec<_>>(),
+                                 "distinct_outputs": distinct, "exit": first.code,
                                  "stdout": first.stdout.chars().take(600).collect::<String>(),
-                                 "stderr": first.stderr.chars().take(600).collect::<String>()}));
+                                 "stderr": strip_ansi(&first.stderr).chars().take(600).collect::<String>()}));
         }
-        st.eval(&rd.text, multi);
+        st.eval(&rd.text, multi || *tag != "random");
         st.count(&format!("gen:{}", tag));
         let rep = json!({"property": "C13", "ledger": rd.text, "runs": rep_runs, "entries": serde_json::to_value(es).unwrap(),
-                         "reproduce": format!("run each command {} times on the ledger and diff the outputs", n_runs)});
-        if st.samples.len() < 3 {
-            st.sample(rep.clone(), 3);
+                         "reproduce": format!("write the ledger to a file, run each command {} times in fresh processes and diff the outputs", runs)});
+        if st.samples.len() < 3 || (*tag != "random" && *tag != "corpus" && st.samples.len() < 5) {
+            st.sample(rep.clone(), 5);
         }
         sh.push(format!("C {} {}", coq::list(es.iter().map(entry_term)), coq::list(runs_terms)), vec![rep]);
+    }
+    // imports kept in the corpus (past failures) or handed over for replay
+    for (k, (yml, csv)) in corpus_imports(&o.corpus, &o.extra).iter().enumerate() {
+        let (_, rep, _) = observe_import(&bin, &scratch, &format!("corpus-imp{}", k), yml, csv, &[], n_runs.max(20));
+        let distinct = rep["distinct_outputs"].as_u64().unwrap_or(0);
+        let ok = rep["exit"].as_i64() == Some(0);
+        st.eval(&(yml.clone(), csv.clone()), true);
+        st.count("gen:corpus-import");
+        st.count(&format!("cmd:import-corpus:{}", if ok { "ok" } else { "fail" }));
+        sh.push(format!("C [] [R {} {} OOpaque]", distinct, coq::bool_(ok)), vec![rep]);
     }
     // import: the repository's own statement samples, N fresh processes each (no model: opaque)
     if !replay {
@@ -277,6 +945,78 @@ pub fn run(o: &Opts) {
             let rep = json!({"property": "C13", "import_config": yml, "statement": csv, "distinct_outputs": seen.len(),
                              "reproduce": "okane import --config config.yml stmt.csv, repeated in fresh processes"});
             sh.push(format!("C [] [R {} {} OOpaque]", seen.len(), coq::bool_(code == 0)), vec![rep]);
+        }
+    }
+    // CSV imports whose header holds near-duplicates of the configured labels (letter case,
+    // surrounding blanks, the same label several times), configs that spell a label in a third
+    // way, several labels missing at once, several templates that do not parse: same outcome in
+    // every process, and the outcome of FieldMap::try_new as modelled (Model/ImpCsv.v)
+    if !replay {
+        let n_hdr = if o.thorough { 160 } else { 40 };
+        let mut ri = Rng::new(o.seed, 1131);
+        for k in 0..n_hdr {
+            let ic = gen_import_case(&mut ri, k);
+            let (term, rep, status) = observe_import(&bin, &scratch, &format!("hdr{}", k), &ic.yml, &ic.csv, &ic.fields, n_runs.max(10));
+            st.eval(&(ic.yml.clone(), ic.csv.clone()), true);
+            st.count(&format!("gen:{}", ic.tag));
+            st.count(&format!("cmd:import-header:{}", ["ok", "labels-not-found", "other-failure", "invalid-template"][status as usize]));
+            if k < 2 {
+                st.sample(rep.clone(), 7);
+            }
+            sh.push(format!("CI {} {} {}", coq::list(ic.header.iter().map(|h| crate::impgen::s_term(h))), fields_term(&ic.fields), term), vec![rep]);
+        }
+        // several rows that cannot be imported (dates, amounts): the first one in the file is reported
+        let n_rows = if o.thorough { 24 } else { 6 };
+        for k in 0..n_rows {
+            let yml = "path: stmt\nencoding: UTF-8\naccount: Assets:Bank\naccount_type: asset\ncommodity: CHF\nformat:\n  date: \"%Y-%m-%d\"\n  fields:\n    date: Date\n    payee: Description\n    amount: Amount\n    balance: Balance\n";
+            let mut csv = String::from("Date,Description,Amount,Balance\n2024-01-02,Shop,-1.50,100\n");
+            let bads = ["2024-13-40,Shop,-2,98", "2024-02-03,Shop,1'000.5,98", "2024-02-04,Shop,-3,9 8 7", "02/05/2024,Shop,-4,94", "2024-02-06,Shop,,", "2024-02-07,Shop,abc,def"];
+            let n_bad = 2 + ri.below(3) as usize;
+            for i in 0..n_bad {
+                csv.push_str(bads[(k + i * (1 + ri.below(3) as usize)) % bads.len()]);
+                csv.push('\n');
+                if ri.chance(1, 2) {
+                    csv.push_str(&format!("2024-03-{:02},Ok,-1,90\n", 10 + i));
+                }
+            }
+            let (_, rep, _) = observe_import(&bin, &scratch, &format!("rows{}", k), yml, &csv, &[], n_runs.max(10));
+            let distinct = rep["distinct_outputs"].as_u64().unwrap_or(0);
+            let ok = rep["exit"].as_i64() == Some(0);
+            st.eval(&csv, true);
+            st.count("gen:import-several-bad-rows");
+            st.count(&format!("cmd:import-bad-rows:{}", if ok { "ok" } else { "fail" }));
+            sh.push(format!("C [] [R {} {} OOpaque]", distinct, coq::bool_(ok)), vec![rep]);
+        }
+    }
+    // ledgers with several syntax errors: every command stops at the first one in the file
+    if !replay {
+        let n_syn = if o.thorough { 30 } else { 8 };
+        let mut rs = Rng::new(o.seed, 1132);
+        let bads = ["foo bar baz", "2024/13/45 x\n    A  1 USD\n    B", "    A  1 USD", "account", "2024/01/05 x\n    A  1 USD USD\n    B", "apply tags k", "include", "2024/01/05 x\n    A  (1 USD +\n    B", "end apply tag"];
+        for k in 0..n_syn {
+            let mut ledger = String::new();
+            let n_bad = 2 + rs.below(2) as usize;
+            for i in 0..n_bad {
+                if i > 0 || rs.chance(2, 3) {
+                    ledger.push_str(&format!("2020/01/{:02} ok\n    Assets:Bank  {} USD\n    Equity:Opening\n\n", 5 + i, 1 + rs.below(90)));
+                }
+                ledger.push_str(bads[(k + i * (1 + rs.below(4) as usize)) % bads.len()]);
+                ledger.push_str("\n\n");
+            }
+            let lp = scratch.write(&format!("syn{}/l.ledger", k), &ledger);
+            let mut terms = Vec::new();
+            let mut reps = Vec::new();
+            for cmd in ["format", "accounts", "balance", "register"] {
+                let args = vec![cmd.to_string(), lp.to_string_lossy().to_string()];
+                let (distinct, first) = run_n(&bin, &args, n_runs.max(8));
+                st.count(&format!("cmd:several-syntax-errors-{}:{}", cmd, if first.code == 0 { "ok" } else { "fail" }));
+                terms.push(format!("(R {} {} OOpaque)", distinct, coq::bool_(first.code == 0)));
+                reps.push(json!({"cmd": cmd, "distinct_outputs": distinct, "exit": first.code, "stderr": strip_ansi(&first.stderr).chars().take(300).collect::<String>()}));
+            }
+            st.eval(&ledger, true);
+            st.count("gen:several-syntax-errors");
+            let rep = json!({"property": "C13", "ledger": ledger, "runs": reps, "reproduce": "run each command repeatedly in fresh processes and diff"});
+            sh.push(format!("C [] {}", coq::list(terms)), vec![rep]);
         }
     }
     // names that differ only in letter case, or only in a trailing character: any
